@@ -373,7 +373,8 @@ ASrvRecv(m, keep, newid, flip) ==
           /\ rcvd' = rcvd (+) SetToBag({<<m1.id, m1.nm, m1.cs>>})
           \* C16 ghost: the handler (before the sweep) moved a stream position although the query was one the server
           \* had recently seen (answered and still remembered, or currently held - letter case and id ignored)
-          /\ lastact' = IF RecentlySeen(s0, m1) /\ StreamPos(s1) # StreamPos(s0) THEN "SrvRecvTwice" ELSE "SrvRecv"
+          /\ lastact' = IF RecentlySeen(s0, m1) THEN (IF StreamPos(s1) # StreamPos(s0) THEN "SrvRecvTwice" ELSE "SrvRecvSeen")
+                         ELSE "SrvRecv"
     /\ netQ' = IF keep THEN netQ ELSE netQ \ {m}
     /\ dup' = IF keep THEN dup + 1 ELSE dup
     /\ UNCHANGED <<dnNext, accC, loss, tos>>
